@@ -324,6 +324,71 @@ func contains(s, sub string) bool {
 	return false
 }
 
+// M1: the connection's channel map itself: a lookup of a live channel while sibling channels of the same map bucket
+// are added and removed (createChannel / the send loop's Delete on a close frame). Fine mode: the atomics of the
+// map implementation are decision points.
+func init() {
+	vexp.Register(&vexp.Scenario{
+		Name: "c06.M1.channel-map-lookup-vs-sibling-churn", Prop: "C06", Also: []string{"C03"}, Fine: true, MaxSteps: 100000,
+		Bounds: func(thorough bool) vexp.Bounds {
+			if thorough {
+				return vexp.Bounds{P: 3, F: -1, E: 0}
+			}
+			return vexp.Bounds{P: 2, F: -1, E: 0}
+		},
+		Configs: func(thorough bool) []map[string]int {
+			return []map[string]int{{"writers": 1}, {"writers": 2}}
+		},
+		Doc: "the map type newConn uses for conn.channels, exactly as conn uses it: channel V is registered and never removed; 1..2 threads Set and Delete sibling ids of the SAME bucket (what conn.Channel and the send loop do) while the receive path looks V up: every lookup must find V (a miss makes mpx drop a frame of a live channel silently)",
+		Body: func(x *vexp.Ctx) {
+			vFreshGlobals()
+			c := newConn(nil, true, noopConnDelegate{}, nil, newVLogger(), vOpts(x))
+			m := c.channels
+			idV, idA, idB := bin.Int128(0, 16), bin.Int128(0, 32), bin.Int128(0, 48) // same bucket of the initial 16
+			chV := newChannel(c, true, idV, 1024)
+			chA := newChannel(c, true, idA, 1024)
+			chB := newChannel(c, true, idB, 1024)
+			m.Set(idV, chV)
+			misses, wrong := 0, 0
+			rDone, wDone := false, 0
+			vsched.GoNamed("lookup", func() {
+				for i := 0; i < 2; i++ {
+					got, ok := m.Get(idV)
+					if !ok {
+						misses++
+					} else if got != internalChannel(chV) {
+						wrong++
+					}
+				}
+				rDone = true
+			})
+			nw := x.P("writers", 1)
+			for wi := 0; wi < nw; wi++ {
+				id, ch := idA, chA
+				if wi == 1 {
+					id, ch = idB, chB
+				}
+				vsched.GoNamed(fmt.Sprintf("churn%d", wi), func() {
+					m.Set(id, ch)
+					m.Delete(id)
+					wDone++
+				})
+			}
+			vsched.Join("done", func() bool { return rDone && wDone == nw })
+			if misses > 0 {
+				x.Fail("a live channel is not found in the connection's channel map while sibling channels are added and removed", "%d of 2 lookups missed channel V", misses)
+			}
+			if wrong > 0 {
+				x.Fail("the channel map returns another channel for the id of a live channel", "%d lookups", wrong)
+			}
+			if got, ok := m.Get(idV); !ok || got != internalChannel(chV) {
+				x.Fail("a live channel disappeared from the connection's channel map", "after the churn")
+			}
+			x.Outcome = fmt.Sprintf("misses=%d", misses)
+		},
+	})
+}
+
 func init() {
 	// W2: Free / SendAndClose / Send blocked on the FULL connection write queue while the peer ends the same channel.
 	vexp.Register(&vexp.Scenario{
